@@ -485,6 +485,8 @@ class Executor:
         """heavy=True: the fact is used when discharging obligations only; branch feasibility ignores it
         (sound: the set of explored paths can only grow)."""
         if c is True: return
+        # assumptions are not retroactive: obligations raised before this point are decided without it
+        if st.oblig: self.flush(st)
         if c is False: raise PathEnd()
         if heavy:
             st.heavy.append(c); return
